@@ -252,6 +252,19 @@ def _scalar_args(lib, cname):
     return [a for a in cfggen.all_args(lib, cname) if a["decl"] in ("param", "meta", "option") and not cfggen.has_cfg(a["ty"])]
 
 
+def _reaches_cycle(g, src):
+    color = {}
+
+    def dfs(u):
+        color[u] = 1
+        for w in edits._all_refs(g["nodes"][u]):
+            if color.get(w) == 1 or (w not in color and dfs(w)):
+                return True
+        color[u] = 2
+        return False
+    return dfs(src)
+
+
 def make_derived_case(rng, li, lib, env):
     if env == "dryrun":
         # a task-rooted acyclic graph really submitted (dry run)
@@ -295,6 +308,10 @@ def make_derived_case(rng, li, lib, env):
             with_pre = [i for i in frozen if g["nodes"][i]["pre"]]
             src = rng.choice(with_pre) if with_pre and rng.random() < 0.6 else rng.choice(frozen)
             via = rng.choice(DERIVE_VIAS)
+            if via == "copy" and _reaches_cycle(g, src):
+                # `.copy()` does not terminate in reasonable time on a configuration that reaches itself (RecursionError after
+                # minutes on the unchanged code): outside what is exercised here
+                via = "copyconfig"
             op = {"op": "derive", "src": src, "via": via, "as": f"d{len(derived)}"}
             if via == "copyconfig-kw":
                 args = _scalar_args(lib, g["nodes"][src]["cls"])
